@@ -561,7 +561,7 @@ func Run(sc Scenario, cfg Config) *Result {
 	}
 	if firstViolation != nil {
 		// re-run 5x straight-line in fresh workers; must reproduce the same signature each time
-		for i := 0; i < 5 && !strings.HasPrefix(firstViolation.Violation.Rule, "deadlock"); i++ {
+		for i := 0; i < 5 && !notStraightLine(firstViolation.Violation.Rule); i++ {
 			w := sc.NewWorker()
 			_, steps := sc.Replay(w, firstViolation.Seed, firstViolation.Path)
 			ok := false
@@ -578,12 +578,19 @@ func Run(sc Scenario, cfg Config) *Result {
 		}
 		res.Violations = append(res.Violations, *firstViolation)
 		res.Samples = append(res.Samples, pathStrings(firstViolation.Path))
-		if firstViolation.Reproduced != 5 && !strings.HasPrefix(firstViolation.Violation.Rule, "deadlock") {
+		if firstViolation.Reproduced != 5 && !notStraightLine(firstViolation.Violation.Rule) {
 			res.InternalError = fmt.Sprintf("violation %s reproduced only %d/5 times straight-line", firstViolation.Violation.Signature(), firstViolation.Reproduced)
 		}
 	}
 	res.Wall = time.Since(start)
 	return res
+}
+
+// notStraightLine: verdicts that cannot be re-established by replaying the path in a fresh worker - a structurally
+// proven deadlock (the replay would hang) and a dependence on what the process executed before (confirmed inside the
+// transition instead).
+func notStraightLine(rule string) bool {
+	return strings.HasPrefix(rule, "deadlock") || strings.HasPrefix(rule, "nondeterministic")
 }
 
 func pathStrings(p []Op) []string {
